@@ -1,0 +1,18 @@
+//go:build verif
+
+package openapi2
+
+// Contracts for marshalling / unmarshalling of OpenAPI 2 objects (C03). Comment-only; read by
+// /verif/engine (govc). The clauses are generated on every run from the struct tags (see DESIGN.md).
+
+//@ generate marshal T @C03
+//@ generate marshal Operation @C03
+//@ generate marshal Parameter @C03 unlessref=Ref:openapi3.Ref
+//@ generate marshal PathItem @C03 unlessref=Ref:openapi3.Ref
+//@ generate marshal Response @C03 unlessref=Ref:openapi3.Ref
+//@ generate marshal Schema @C03
+//@ generate marshal SecurityScheme @C03 unlessref=Ref:openapi3.Ref
+
+//@ func unmarshalError
+//@   modifies nothing
+//@   ensures jsonUnmarshalErr != nil ==> result != nil
